@@ -73,6 +73,17 @@ impl EntropyCompressionStats {
     }
 }
 
+/// Record framing used by [`HuffmanBlobStore`] inside the wrapped store.
+///
+/// `get`/`size` have to know whether (and with which tree) a record was
+/// compressed, so every stored record starts with a one-byte tag:
+/// * `FRAME_RAW`: the record bytes follow unchanged;
+/// * `FRAME_HUFFMAN`: tree generation (u32 LE), original length (u64 LE), then
+///   the Huffman bit stream.
+const FRAME_RAW: u8 = 0;
+const FRAME_HUFFMAN: u8 = 1;
+const FRAME_HUFFMAN_HEADER: usize = 1 + 4 + 8;
+
 /// Huffman coding blob store wrapper
 pub struct HuffmanBlobStore<S: BlobStore> {
     inner: S,
@@ -80,6 +91,9 @@ pub struct HuffmanBlobStore<S: BlobStore> {
     training_data: Vec<u8>,
     encoder: Option<HuffmanEncoder>,
     tree: Option<HuffmanTree>,
+    /// Every tree that was ever used for encoding (records keep the index of
+    /// theirs, so rebuilding the tree does not orphan older records)
+    trees: Vec<HuffmanTree>,
 }
 
 impl<S: BlobStore> HuffmanBlobStore<S> {
@@ -91,6 +105,7 @@ impl<S: BlobStore> HuffmanBlobStore<S> {
             training_data: Vec::new(),
             encoder: None,
             tree: None,
+            trees: Vec::new(),
         }
     }
 
@@ -108,10 +123,52 @@ impl<S: BlobStore> HuffmanBlobStore<S> {
         let tree = HuffmanTree::from_data(&self.training_data)?;
         let encoder = HuffmanEncoder::new(&self.training_data)?;
 
+        // Decode with exactly the tree the encoder uses
+        self.trees.push(encoder.tree().clone());
         self.tree = Some(tree);
         self.encoder = Some(encoder);
 
         Ok(())
+    }
+
+    /// Frame an uncompressed record
+    fn frame_raw(data: &[u8]) -> Vec<u8> {
+        let mut framed = Vec::with_capacity(1 + data.len());
+        framed.push(FRAME_RAW);
+        framed.extend_from_slice(data);
+        framed
+    }
+
+    /// Original record length of a framed record (without decoding it)
+    fn framed_len(stored: &[u8]) -> Result<usize> {
+        match stored.first() {
+            Some(&FRAME_RAW) => Ok(stored.len() - 1),
+            Some(&FRAME_HUFFMAN) if stored.len() >= FRAME_HUFFMAN_HEADER => {
+                let mut len = [0u8; 8];
+                len.copy_from_slice(&stored[5..FRAME_HUFFMAN_HEADER]);
+                Ok(u64::from_le_bytes(len) as usize)
+            }
+            _ => Err(ZiporaError::invalid_data("Corrupt Huffman blob frame")),
+        }
+    }
+
+    /// Undo the framing (and the Huffman coding, if any) of a stored record
+    fn unframe(&self, stored: &[u8]) -> Result<Vec<u8>> {
+        match stored.first() {
+            Some(&FRAME_RAW) => Ok(stored[1..].to_vec()),
+            Some(&FRAME_HUFFMAN) if stored.len() >= FRAME_HUFFMAN_HEADER => {
+                let mut generation = [0u8; 4];
+                generation.copy_from_slice(&stored[1..5]);
+                let tree = self
+                    .trees
+                    .get(u32::from_le_bytes(generation) as usize)
+                    .ok_or_else(|| ZiporaError::invalid_data("Unknown Huffman tree generation"))?;
+                let original_length = Self::framed_len(stored)?;
+                HuffmanDecoder::new(tree.clone())
+                    .decode(&stored[FRAME_HUFFMAN_HEADER..], original_length)
+            }
+            _ => Err(ZiporaError::invalid_data("Corrupt Huffman blob frame")),
+        }
     }
 
     /// Get compression statistics
@@ -162,26 +219,31 @@ impl<S: BlobStore> HuffmanBlobStore<S> {
 
 impl<S: BlobStore> BlobStore for HuffmanBlobStore<S> {
     fn get(&self, id: crate::RecordId) -> Result<Vec<u8>> {
-        // For now, delegate to inner store (would need metadata for decompression)
-        self.inner.get(id)
+        let stored = self.inner.get(id)?;
+        self.unframe(&stored)
     }
 
     fn put(&mut self, data: &[u8]) -> Result<crate::RecordId> {
         if self.encoder.is_some() && !data.is_empty() {
-            match self.compress_data(data) {
-                Ok(compressed) => {
-                    let id = self.inner.put(&compressed)?;
+            if let Ok(compressed) = self.compress_data(data) {
+                let generation = self.trees.len() - 1;
+                let mut framed = Vec::with_capacity(FRAME_HUFFMAN_HEADER + compressed.len());
+                framed.push(FRAME_HUFFMAN);
+                framed.extend_from_slice(&(generation as u32).to_le_bytes());
+                framed.extend_from_slice(&(data.len() as u64).to_le_bytes());
+                framed.extend_from_slice(&compressed);
+
+                // Only keep the compressed form if it really decodes back to the
+                // record (e.g. a single-symbol tree produces an empty bit stream)
+                if self.unframe(&framed).map(|back| back == data).unwrap_or(false) {
+                    let id = self.inner.put(&framed)?;
                     self.stats.blob_stats.put_count += 1;
-                    Ok(id)
-                }
-                Err(_) => {
-                    // Fall back to uncompressed
-                    self.inner.put(data)
+                    return Ok(id);
                 }
             }
-        } else {
-            self.inner.put(data)
+            // Fall back to uncompressed
         }
+        self.inner.put(&Self::frame_raw(data))
     }
 
     fn remove(&mut self, id: crate::RecordId) -> Result<()> {
@@ -193,7 +255,11 @@ impl<S: BlobStore> BlobStore for HuffmanBlobStore<S> {
     }
 
     fn size(&self, id: crate::RecordId) -> Result<Option<usize>> {
-        self.inner.size(id)
+        // Report the size of the record, not of its stored (framed) form
+        match self.inner.get(id) {
+            Ok(stored) => Self::framed_len(&stored).map(Some),
+            Err(_) => Ok(None),
+        }
     }
 
     fn len(&self) -> usize {
